@@ -21,6 +21,7 @@ func lineDecisionsRule(r *Run, rule string) {
 	if lm != nil {
 		counter = lm.line
 	}
+	lineFields := map[*types.Var]bool{}
 	isLineField := func(t types.Type, idx int) bool {
 		if pt, ok := t.Underlying().(*types.Pointer); ok {
 			t = pt.Elem()
@@ -32,6 +33,9 @@ func lineDecisionsRule(r *Run, rule string) {
 		f := st.Field(idx)
 		if counter != nil && f == counter {
 			return true
+		}
+		if lineFields[f] {
+			return true // a field some function keeps a line in (the line of the tag being parsed, ...)
 		}
 		return f.Name() == "LineNumber" && isIntType(f.Type())
 	}
@@ -150,6 +154,50 @@ func lineDecisionsRule(r *Run, rule string) {
 			return rec(x.Tuple)
 		}
 		return false
+	}
+	// fields that are made to carry a line: an int field that is stored a value computed from one (to a fixpoint)
+	for round := 0; round < 4; round++ {
+		grew := false
+		for _, rel := range []string{"lexer", "parser", "ast", "token", ""} {
+			for _, f := range w.Funcs(rel) {
+				fn := w.SSAFunc(f)
+				if fn == nil {
+					continue
+				}
+				for _, g := range append([]*ssa.Function{fn}, allAnon(fn)...) {
+					for _, b := range g.Blocks {
+						for _, ins := range b.Instrs {
+							st, ok := ins.(*ssa.Store)
+							if !ok || !isIntType(st.Val.Type()) {
+								continue
+							}
+							fa, ok := st.Addr.(*ssa.FieldAddr)
+							if !ok {
+								continue
+							}
+							t := fa.X.Type()
+							if pt, isPtr := t.Underlying().(*types.Pointer); isPtr {
+								t = pt.Elem()
+							}
+							sty, ok := t.Underlying().(*types.Struct)
+							if !ok || fa.Field >= sty.NumFields() || isLineField(t, fa.Field) {
+								continue
+							}
+							if dependsOnLine(st.Val, 0, map[ssa.Value]bool{}, nil) {
+								lineFields[sty.Field(fa.Field)] = true
+								grew = true
+							}
+						}
+					}
+				}
+			}
+		}
+		if !grew {
+			break
+		}
+		for k := range callMemo {
+			delete(callMemo, k)
+		}
 	}
 	nFuncs, nBranches := 0, 0
 	for _, rel := range []string{"lexer", "parser", "ast", "token", ""} {
